@@ -217,6 +217,19 @@ class HooksModule:
             self.registrations.append(Registration(ty, order, h, hn, table, lineno, fn.name, conv,
                                                    ast.unparse(key_node)))
 
+        def registers(node) -> bool:
+            """Does this statement (outside nested function definitions) register a plain structure hook?"""
+            stack = [node]
+            while stack:
+                n = stack.pop()
+                if isinstance(n, ast.Call) and isinstance(n.func, ast.Attribute) and \
+                        n.func.attr in ("register_structure_hook", "register_structure_hook_func"):
+                    return True
+                for c in ast.iter_child_nodes(n):
+                    if not isinstance(c, (ast.FunctionDef, ast.Lambda)):
+                        stack.append(c)
+            return False
+
         def run(body):
             for st in body:
                 if isinstance(st, ast.FunctionDef):
@@ -225,11 +238,18 @@ class HooksModule:
                     pass
                 elif isinstance(st, ast.Assign) and len(st.targets) == 1 and isinstance(st.targets[0], ast.Name):
                     name = st.targets[0].id
-                    if isinstance(st.value, ast.List):
+                    if isinstance(st.value, ast.List) and st.value.elts and all(
+                            isinstance(e, ast.Tuple) and len(e.elts) == 2 for e in st.value.elts):
                         tables[name] = entries(st.value, name)
                     else:
-                        ty, order = parse_type(st.value, f"{self.rel}:{st.lineno} {name}", lookup)
-                        local_types[name] = (ty, order)
+                        try:
+                            ty, order = parse_type(st.value, f"{self.rel}:{st.lineno} {name}", lookup)
+                            local_types[name] = (ty, order)
+                        except AnalysisError:
+                            # a local that is not a type (cache dict, constant...): irrelevant to registration
+                            # unless it hides a registration call
+                            if registers(st):
+                                raise
                 elif isinstance(st, ast.AugAssign) and isinstance(st.target, ast.Name) \
                         and isinstance(st.op, ast.Add) and st.target.id in tables:
                     tables[st.target.id] = tables[st.target.id] + entries(st.value, st.target.id)
@@ -264,7 +284,7 @@ class HooksModule:
                         pred = dotted(call.args[0])
                         fac = call.args[1]
                         if not (isinstance(fac, ast.Name) and fac.id in local_fns):
-                            raise AnalysisError(f"{self.rel}:{st.lineno}: factory is not a local function")
+                            continue   # decided semantically by special.fold_factories
                         self.factories.append(FactoryRegistration(
                             "structure" if "unstructure" not in d else "unstructure", pred,
                             local_fns[fac.id], st.lineno, fn.name, conv))
@@ -274,8 +294,10 @@ class HooksModule:
                     if st.value is None or dotted(st.value) != conv:
                         raise AnalysisError(f"{self.rel}:{st.lineno}: {fn.name} does not return its converter")
                 else:
-                    raise AnalysisError(f"{self.rel}:{st.lineno}: unsupported statement "
-                                        f"{type(st).__name__} in {fn.name}")
+                    if registers(st):
+                        raise AnalysisError(f"{self.rel}:{st.lineno}: unsupported statement "
+                                            f"{type(st).__name__} in {fn.name} performs hook registrations")
+                    # statements without any structure-hook registration do not change the hook tables
         run(fn.body)
 
     @staticmethod
